@@ -449,7 +449,19 @@ class VStdout:
     encoding = "utf-8"
     errors = "strict"
 
-    def __init__(self, term=None, isatty=True, plan=None, record=True):
+    def __init__(self, term=None, isatty=True, plan=None, record=True, buffering="none"):
+        """*buffering*: "none" - write() delivers at once (default, the worst case for cut sequences);
+        "full" - like a buffered TextIOWrapper: write() only appends to the pending buffer (still a
+        numbered fault point: "instead" = nothing appended, "after" = appended), flush() is the hand-over
+        to the terminal: a FaultPlan in mode "partial" at a flush point delivers `prefix` characters of the
+        pending text and raises, the rest being lost (buffered=False) or kept for the next hand-over
+        (buffered=True); "instead" at a flush keeps everything pending; "line" - like "full", but a
+        write() containing a newline hands over everything pending (the same fault point as the write:
+        "partial" then cuts the hand-over).  In the buffered disciplines the log payload of a flush is the
+        number of pending characters."""
+        if buffering not in ("none", "full", "line"):
+            raise ValueError(buffering)
+        self.buffering = buffering
         self.term = term
         self._isatty = isatty
         self.plan = plan
@@ -497,6 +509,45 @@ class VStdout:
             if self.term is not None:
                 self.term.feed(s)
 
+    def pending(self):
+        """Text written but not yet handed over to the terminal."""
+        return "".join(self._buf)
+
+    def _handover(self, cut=None, keep_rest=True):
+        """Deliver the pending text (or its first *cut* characters; the rest is kept or lost)."""
+        b, self._buf = self._buf, []
+        if cut is None:
+            for x in b:
+                self._deliver(x)
+            return
+        text = "".join(b)
+        cut = min(max(cut, 0), len(text))
+        self._deliver(text[:cut])
+        if keep_rest and text[cut:]:
+            self._buf = [text[cut:]]
+
+    def _write_buffered(self, s, n):
+        line = self.buffering == "line" and "\n" in s
+        p = self.plan
+        if p and not p.fired and p.k == n and p.mode in ("instead", "partial"):
+            if self.in_cleanup is not None and p.mode == "instead" and self.in_cleanup("write", s):
+                p.skipped_cleanup = True
+            else:
+                p.fired = True
+                p.fired_kind = "write"
+                if p.mode == "partial":
+                    if line:
+                        self._buf.append(s)
+                        self._handover(p.prefix or 0, keep_rest=bool(p.buffered))
+                    else:
+                        self._buf.append(s if p.buffered else s[:min(p.prefix or 0, len(s))])
+                raise p.exc()
+        self._buf.append(s)
+        if line:
+            self._handover()
+        self.after(n, "write")
+        return len(s)
+
     def write(self, s):
         if not isinstance(s, str):
             raise TypeError("write() argument must be str")
@@ -504,6 +555,8 @@ class VStdout:
         n = self.npoints
         if self.record:
             self.log.append((n, "write", len(s)))
+        if self.buffering != "none":
+            return self._write_buffered(s, n)
         p = self.plan
         if p and not p.fired and p.k == n and p.mode in ("instead", "partial"):
             if self.in_cleanup is not None and p.mode == "instead" and self.in_cleanup("write", s):
@@ -521,6 +574,17 @@ class VStdout:
         return len(s)
 
     def flush(self):
+        if self.buffering != "none":
+            n = self.point("flush", sum(map(len, self._buf)))      # "instead": everything stays pending
+            p = self.plan
+            if p and not p.fired and p.k == n and p.mode == "partial":
+                p.fired = True
+                p.fired_kind = "flush"
+                self._handover(p.prefix or 0, keep_rest=bool(p.buffered))
+                raise p.exc()
+            self._handover()
+            self.after(n, "flush")
+            return
         n = self.point("flush")
         if self._buf:
             b, self._buf = self._buf, []
